@@ -40,7 +40,8 @@ let map_count (needle : string) =
      done with End_of_file -> ());
   close_in ic; !n
 
-type obs = { step : string; fds : int; maps : int; tmp : int; threads : int; efds : int; emaps : int; ethreads : int option }
+type obs = { step : string; fds : int; maps : int; tmp : int; threads : int; efds : int; emaps : int; ethreads : int option;
+             op_model : (int * int * int * int) option (* (fds, maps, temp files, handler threads) of the operational model *) }
 
 let led_of (objs : okind list) : led = ledger (List.mapi (fun i k -> (n_of_int i, k)) objs)
 
@@ -48,15 +49,20 @@ let led_of (objs : okind list) : led = ledger (List.mapi (fun i k -> (n_of_int i
    object kinds (for the model) *)
 type ctx = { dir : string; spill : string; mutable live : (int * okind) list; mutable next : int;
              mutable log : obs list; base_fds : int; base_threads : int; st : Random.State.t;
-             mutable pool_threads_max : int }
+             mutable pool_threads_max : int;
+             (* the same history for the OPERATIONAL resource model (model/Resources.v): when a scenario records its API calls
+                as [rop]s, every observation is also compared with obs (rrun rops) *)
+             mutable rops : rop list; mutable rops_on : bool }
 
 let observe c step ~threads_exact =
   let l = ledger (List.map (fun (i, k) -> (n_of_int i, k)) c.live) in
   let o = { step; fds = fd_count () - c.base_fds; maps = map_count c.dir; tmp = count_dir c.spill;
             threads = thread_count () - c.base_threads;
             efds = int_of_n l.l_fds; emaps = int_of_n l.l_maps;
-            ethreads = (if threads_exact then Some (int_of_n l.l_handler_threads) else None) } in
+            ethreads = (if threads_exact then Some (int_of_n l.l_handler_threads) else None);
+            op_model = (if c.rops_on then (let (((a, b), t), h) = obs (rrun (List.rev c.rops)) in Some (int_of_n a, int_of_n b, int_of_n t, int_of_n h)) else None) } in
   c.log <- o :: c.log
+let rop c (o : rop) = c.rops <- o :: c.rops
 let create c k = let id = c.next in c.next <- id + 1; c.live <- (id, k) :: c.live; id
 let update c id k = c.live <- List.map (fun (i, x) -> if i = id then (i, k) else (i, x)) c.live
 let destroy c id = c.live <- List.filter (fun (i, _) -> i <> id) c.live
@@ -74,6 +80,9 @@ let sc_writer c =
   let nthreads = if pooled then rint c.st 3 else 0 in     (* a pool of zero threads is allowed *)
   let pool = if pooled then Wr.c_pool_init nthreads else 0n in
   let pid = if pooled then Some (create c (KPool (n_of_int nthreads))) else None in
+  c.rops_on <- true;
+  let mid = n_of_int in
+  (match pid with Some p -> rop c (RPoolInit (mid p, n_of_int nthreads)) | None -> ());
   observe c "pool_init" ~threads_exact:true;
   let path = Filename.concat c.dir "w.mtbl" in
   (try Sys.remove path with _ -> ());
@@ -85,40 +94,48 @@ let sc_writer c =
   let w = Wr.c_writer_init_fd fd (rint c.st 6, false, 0, true, bs, ri_set, ri, pool) in
   Wr.c_close fd;
   let wid = create c (KWriter pooled) in
+  rop c (RWriterInitFd (mid wid, (match pid with Some p -> Some (mid p) | None -> None)));
   observe c "writer_init" ~threads_exact:(not pooled || nthreads = 0);
   let n = (match shape with 1 -> rrange c.st 200 1500 | 3 -> rrange c.st 0 40 | _ -> rrange c.st 0 80) in
   for i = 0 to n do
     let base = Printf.sprintf "k%04d" (if rint c.st 5 = 0 then 0 else i) in
     let key = if shape = 3 then base ^ String.make (rrange c.st 250 5000) 'K' else base in
-    ignore (Wr.c_writer_add w key (String.make (rint c.st 300) 'v'))
+    let ok = Wr.c_writer_add w key (String.make (rint c.st 300) 'v') in
+    rop c (RWriterAdd (mid wid, not ok, false, false))
   done;
   observe c "writer_adds(with refusals)" ~threads_exact:false;
-  Wr.c_writer_destroy w; destroy c wid;
+  Wr.c_writer_destroy w; destroy c wid; rop c (RWriterDestroy (mid wid, false));
   observe c "writer_destroy" ~threads_exact:false;
-  (match pid with Some p -> Wr.c_pool_destroy pool; destroy c p | None -> ());
+  (match pid with Some p -> Wr.c_pool_destroy pool; destroy c p; rop c (RPoolDestroy (mid p)) | None -> ());
   observe c "pool_destroy" ~threads_exact:true
 
 let sc_reader c =
   let path = mk_table c "r.mtbl" (rrange c.st 0 200) in
   let r = Rd.c_reader_init path (rbool c.st) (rbool c.st) in
   let rid = create c (KReader true) in
+  c.rops_on <- true;
+  let mid = n_of_int in
+  rop c (RReaderInit (mid rid, true, RdOk));
   observe c "reader_init" ~threads_exact:true;
   let src = Rd.c_reader_source r in
   let its = List.init (rrange c.st 1 5) (fun i ->
     let it = (match i mod 4 with 0 -> Rd.c_source_iter src | 1 -> Rd.c_source_get src "k0003"
                                  | 2 -> Rd.c_source_get_prefix src "k00" | _ -> Rd.c_source_get_range src "k0001" "k0100") in
-    for _ = 1 to rint c.st 30 do ignore (Rd.c_iter_next it) done;
-    if rbool c.st then ignore (Rd.c_iter_seek it "k0050");
-    it) in
+    let iid = 1000 + i in
+    rop c (RSourceIter (mid iid, mid rid, (match i mod 4 with 0 -> QIter | 1 -> QGet | 2 -> QPrefix | _ -> QRange), Ioc (it <> 0n, false, [])));
+    for _ = 1 to rint c.st 30 do ignore (Rd.c_iter_next it); rop c (RIterNext (mid iid)) done;
+    if rbool c.st then (ignore (Rd.c_iter_seek it "k0050"); rop c (RIterSeek (mid iid)));
+    (it, iid)) in
   observe c "iterators(undrained)" ~threads_exact:true;
-  List.iter (fun it -> if it <> 0n then Rd.c_iter_destroy it) its;
+  List.iter (fun (it, iid) -> if it <> 0n then Rd.c_iter_destroy it; rop c (RIterDestroy (mid iid))) its;
   (* a file that is not a table *)
   let bad = Filename.concat c.dir "bad.mtbl" in
   let oc = open_out bad in output_string oc (String.make (rrange c.st 0 2000) 'x'); close_out oc;
   let rb = Rd.c_reader_init bad false false in
   if rb <> 0n then Rd.c_reader_destroy rb;
+  rop c (RReaderInit (mid 2000, true, (if (Unix.stat bad).Unix.st_size < 512 then RdTooSmall else RdBadMagic)));
   observe c "reader_init(non-table)" ~threads_exact:true;
-  Rd.c_reader_destroy r; destroy c rid;
+  Rd.c_reader_destroy r; destroy c rid; rop c (RReaderDestroy (mid rid));
   observe c "reader_destroy" ~threads_exact:true
 
 let sc_merger c =
@@ -372,7 +389,7 @@ let run_scenario (name : string) (f : ctx -> unit) ~seed ~index : child_end =
     let logs = ref [] in
     for round = 1 to 4 do
       let c = { dir; spill; live = []; next = 0; log = []; base_fds = fd_count (); base_threads = thread_count ();
-                st = case_rng ~seed ~engine ~index; pool_threads_max = 0 } in
+                st = case_rng ~seed ~engine ~index; pool_threads_max = 0; rops = []; rops_on = false } in
       So.c_mkstemp_reset ();
       f c;
       if round = 1 then logs := List.rev c.log;
@@ -401,7 +418,18 @@ let run ~tier ~seed ~only acc =
            if o.fds <> o.efds then bad "open descriptors" o.fds o.efds;
            if o.maps <> o.emaps then bad "file mappings" o.maps o.emaps;
            if o.tmp <> 0 then bad "files in the sorter temp directory" o.tmp 0;
-           (match o.ethreads with Some t -> if o.threads <> t then bad "threads" o.threads t | None -> ())) log;
+           (match o.ethreads with Some t -> if o.threads <> t then bad "threads" o.threads t | None -> ());
+           (match o.op_model with
+            | Some (mf, mm, mt, mh) ->
+              bump acc "operational_model_observations";
+              let bad2 what got exp =
+                fail acc ~kind:"model_mismatch" ~what:(Printf.sprintf "[C18] %s after step '%s' (operational resource model, T18_all_destroyed_clean)" what o.step)
+                  (JO [ "case", Lazy.force case; "observed", JI got; "model", JI exp ]) in
+              if o.fds <> mf then bad2 "open descriptors" o.fds mf;
+              if o.maps <> mm then bad2 "file mappings" o.maps mm;
+              if o.tmp <> mt then bad2 "temporary files" o.tmp mt;
+              (match o.ethreads with Some _ -> if o.threads <> mh then bad2 "handler threads" o.threads mh | None -> ())
+            | None -> ())) log;
          (match List.rev log with
           | last :: _ ->
             if last.fds <> 0 || last.maps <> 0 || last.tmp <> 0 || last.threads <> 0 then
